@@ -81,6 +81,11 @@ def bigbin_cases(tier):
     for n in (65536, 1048576, 1048577):
         for fl in ("b", "a"):
             cases.append(f"bigbin {fl} {n} 0 v")
+    # beyond 16 MiB (4096 << 12) and 32 MiB: no bound on what one response may hold is part of the protocol
+    for n in (16 * 1048576 - 64, 16 * 1048576, 16 * 1048576 + 1, 20 * 1048576 + 5, 33 * 1048576):
+        for fl in ("b", "a"):
+            for shape in (("f", "u") if n < 33 * 1048576 else ("f",)):
+                cases.append(f"bigbin {fl} {n} {0 if fl == 'b' else 1 << 20} {shape}")
     return cases
 
 
